@@ -483,8 +483,18 @@ func makeOptionalPtrDecoder(typ reflect.Type) (decoder, error) {
 	if err != nil {
 		return nil, err
 	}
+	// Only the empty value the encoder writes for a nil pointer of this type stands
+	// for nil: an empty list for structs and non-byte slices/arrays, else an empty string.
+	nilKind := String
+	if k := etype.Kind(); etype != bigInt &&
+		(k == reflect.Struct || (k == reflect.Slice || k == reflect.Array) && !isByte(etype.Elem())) {
+		nilKind = List
+	}
 	dec := func(s *Stream, val reflect.Value) (err error) {
 		kind, size, err := s.Kind()
+		if err == nil && size == 0 && kind != Byte && kind != nilKind {
+			return &decodeError{msg: fmt.Sprintf("wrong kind of empty value (got %v, want %v)", kind, nilKind), typ: typ}
+		}
 		if err != nil || size == 0 && kind != Byte {
 			// rearm s.Kind. This is important because the input
 			// position must advance to the next value even though
